@@ -29,6 +29,9 @@ pub(crate) struct BtreeExtractIf<
     range: RangeMut<'a, K, V>,
     predicate: F,
     predicate_running: bool,
+    // Set while next()/next_back() is running, so that an unwind out of the step itself (not out of
+    // the caller's code between steps) can be told apart when the iterator is dropped
+    step_running: bool,
     state: ExtractState,
     close_failed: bool,
 }
@@ -57,13 +60,17 @@ where
             ),
             predicate,
             predicate_running: false,
+            step_running: false,
             state: ExtractState::Running,
             close_failed: false,
         }
     }
 
+    // True if a step was cut short by an unwind: out of the predicate, or out of the scan itself (a
+    // panicking user comparison or decoder). Pages the step had allocated or unlinked are then
+    // accounted for nowhere, so the write transaction must be poisoned like after a failed close.
     pub(crate) fn predicate_panicked(&self) -> bool {
-        self.predicate_running
+        self.predicate_running || self.step_running
     }
 
     pub(crate) fn close(&mut self) -> Result {
@@ -167,7 +174,9 @@ where
             ExtractState::Closed => return None,
             ExtractState::Running => {}
         }
+        self.step_running = true;
         let result = inner(self);
+        self.step_running = false;
         if result.is_err() {
             self.latch_error();
         }
